@@ -12,5 +12,5 @@ m=json.load(open('$d/meta.json'))
 ps=[m['breaks_property']]+[p for p in m.get('caught_by',[]) if p!=m['breaks_property']]
 print(' '.join(ps[:2]))")
   echo "=== $(date +%H:%M:%S) $id $props"
-  SKIP_SUITE=1 python3 bin/eval_mutant.py "$d" "$id" $props 2>&1 | tail -3
+  SKIP_SUITE=1 SKIP_DEMO=1 python3 bin/eval_mutant.py "$d" "$id" $props 2>&1 | tail -3
 done
